@@ -106,6 +106,44 @@ def run(ctx):
     specs += seq
     for sp in specs:
         sp['opts']['no_solve'] = True
+    # split set-up: every interval problem and the joint mapping must be as faithful as a single problem
+    spl = gen.gen_many(ctx.seed, 14 if ctx.tier == 'quick' else 100, dict(CFG, p_coarse=0.0, p_periodic=0.0, freqs=['h'], T=(6, 10), tzs=[None], p_unaligned_end=0.0,
+                                                                          window_kinds=['inside', 'left', 'right']), 'c07s_')
+    spl += util.orderbook_tail_specs(ctx.seed, 6 if ctx.tier == 'quick' else 40, 'c07sob_', split=True)
+    for sp in spl:
+        sp['opts']['split'] = '3h'
+        sp['opts']['no_solve'] = True
+    spl = [sp for sp in ctx.specs(spl) if sp.get('opts', {}).get('split')]
+    from props.C14 import interval_ranges
+    for sp, o in zip(spl, C.run_impl('portfolio', spl) if spl else []):
+        s_ = o.get('split') if o.get('status') == 'ok' else None
+        if not isinstance(s_, dict) or 'setup_error' in s_:
+            continue
+        ctx.count('split problems checked')
+        ctx.cov['impl_oracle_evaluations'] += 1
+        bad = {}
+        rng_ = interval_ranges(sp, sp['opts']['split'])
+        off, expect = 0, []
+        if len(rng_) != len(s_['ops']):
+            bad['number of intervals'] = [len(s_['ops']), len(rng_)]
+        for k_, p_ in enumerate(s_['ops']):
+            nloc = len(p_['c'])
+            if any(not (0 <= r['index'] < nloc) for r in p_['mapping']):
+                bad['mapping of interval problem %d points outside its variables' % k_] = [sorted(set(r['index'] for r in p_['mapping']))[-3:], nloc]
+            elif k_ < len(rng_):
+                for r in p_['mapping']:
+                    if 0 <= r['time_step'] < len(rng_[k_]):
+                        expect.append((r['index'] + off, r['asset'], str(r['node']), r['type'], rng_[k_][r['time_step']], r['var_name']))
+            off += nloc
+        got = [(r['index'], r['asset'], str(r['node']), r['type'], r['time_step'], r['var_name']) for r in s_['mapping']]
+        if len(s_['c']) != off:
+            bad['cost vector of the split problem'] = [len(s_['c']), off]
+        if not bad and sorted(got) != sorted(expect):
+            bad['joint mapping != interval mappings shifted to their variables and to the steps of the whole grid'] = {
+                'only joint': [g_ for g_ in sorted(got) if g_ not in expect][:3], 'only expected': [e_ for e_ in sorted(expect) if e_ not in got][:3]}
+        if bad:
+            ctx.violation('impl-violation', {'spec': sp, 'mode': 'split', 'observed': bad, 'expected': 'well-formed interval problems; joint mapping names the variables of the concatenated problem'},
+                          trigger={'what': 'split: ' + sorted(bad)[0][:40]})
     specs = ctx.specs(specs)
     res = C.run_impl('portfolio', specs)
     parts = C.run_impl('assets', specs)
